@@ -20,11 +20,11 @@ RW_GUARDS = {'tulz::rwp::ReadLock': 'R', 'tulz::rwp::WriteLock': 'W'}
 
 
 class Ev:
-    __slots__ = ('kind', 'name', 'obj', 'val', 'args', 'node', 'locks', 'depth', 'fn')
+    __slots__ = ('kind', 'name', 'obj', 'val', 'args', 'node', 'locks', 'depth', 'fn', 'tag')
 
     def __init__(self, kind, node=None, name='', obj=None, val=None, args=None):
         self.kind = kind; self.node = node; self.name = name; self.obj = obj; self.val = val; self.args = args or []
-        self.locks = frozenset(); self.depth = 0; self.fn = ''
+        self.locks = frozenset(); self.depth = 0; self.fn = ''; self.tag = None
 
     def __repr__(self):
         return f"<{self.kind} {self.name or ''} obj={self.obj} val={self.val} locks={sorted(self.locks)} @{self.node.shortloc() if self.node is not None else ''}>"
@@ -77,8 +77,12 @@ class EvDomain(Domain):
         if n.k == 'construct' and ((n.d.get('class') or '') in RW_GUARDS): return True
         return False
 
+    def tag_event(self, st, e):
+        return None
+
     def ev(self, st, e, fr):
         e.depth = fr.depth; e.fn = fr.fn.name
+        e.tag = self.tag_event(st, e)
         st.events.append(('ev', e.node, e))
         return e
 
@@ -213,9 +217,14 @@ class EvDomain(Domain):
         if base in ('end', 'cend'): return Sym(f'{on}.end')
         if base in ('front',): return Sym(f'{on}.front')
         if base in ('back',): return Sym(f'{on}.back')
+        if base in ('get',) and (n.mclass or '').startswith(('std::unique_ptr', 'std::shared_ptr')):
+            if isinstance(ov, Ref): ov = ex.read(ov.loc, st, n)
+            if ov is not None and not (isinstance(ov, Sym) and ov.name.startswith('field:')): return ov
         if base in ('get',) and on: return Sym(f'{on}.ptr')
         if base == 'operator*' or base == 'operator->':
             if isinstance(ov, Ref): ov = ex.read(ov.loc, st, n)
+            if base == 'operator->' and (n.mclass or '').startswith(('std::unique_ptr', 'std::shared_ptr')) and ov is not None:
+                return ov       # the raw pointer the smart pointer holds: same entity
             if isinstance(ov, Sym) and ov.name.endswith('.begin'): return Sym(ov.name[:-6] + '.front')
             if isinstance(ov, Sym): return Sym(ov.name + '.deref')
             return Sym(f'{on}.deref')
@@ -240,10 +249,18 @@ def _flatten(path):
     guards_pending = None
     out = []
     last_guard_ev = None
+    decls = {}         # local name -> (value at declaration, decl node): scoped smart pointers delete what they hold
+    released = set()
     for k, node, payload in path.events:
         e = None
         if k == 'ev':
             e = payload
+            if e.kind == 'call' and e.obj in decls and e.name.startswith('std::unique_ptr'):
+                b = e.name.split('::')[-1]
+                if b == 'release': released.add(e.obj)
+                elif b == 'reset':
+                    d0 = Ev('delete', e.node, val=decls[e.obj][0], obj=e.obj, name='unique_ptr::reset'); d0.locks = frozenset(cur); d0.fn = e.fn; d0.tag = e.tag
+                    out.append(d0); decls[e.obj] = (e.args[0] if e.args else None, e.node)
             if e.kind == 'guard':
                 last_guard_ev = e
                 cur.add(e.obj); e2 = Ev('acquire', e.node, obj=e.obj, val=e.val); e2.locks = frozenset(cur); e2.fn = e.fn; e2.depth = e.depth
@@ -256,6 +273,7 @@ def _flatten(path):
                 e2 = Ev('release', e.node, obj=m); e2.locks = frozenset(cur); e2.fn = e.fn; out.append(e2); continue
         elif k == 'decl':
             name, val = payload
+            decls[name] = (val, node)
             if last_guard_ev is not None and node is not None:
                 # `std::scoped_lock locker(m)` : remember which variable guards which mutex
                 for v in node.vars:
@@ -270,6 +288,8 @@ def _flatten(path):
                 if m in cur:
                     cur.discard(m)
                     e = Ev('release', None, obj=m)
+            elif (ty or '').startswith('std::unique_ptr') and name in decls and name not in released and decls[name][0] is not None:
+                e = Ev('delete', decls[name][1], val=decls[name][0], obj=name, name='unique_ptr::~unique_ptr')
             else:
                 e = Ev('scope-dtor', None, obj=name, name=ty or '')
         elif k == 'write':
